@@ -28,8 +28,28 @@ impl ParabolicSAR {
 		// documented start: an uptrend from the first candle, SAR at its low, no previous trend
 		r is Ok ==> r->Ok_0.inv() && r->Ok_0.cfg == self && r->Ok_0.trend == 1 && r->Ok_0.prev_trend == 0 && r->Ok_0.trend_inc == 1
 			&& r->Ok_0.sar == candle.low_s() && r->Ok_0.low == candle.low_s() && r->Ok_0.high == candle.high_s(),
+		r is Ok ==> r->Ok_0.prev_candle.high == candle.high_s() && r->Ok_0.prev_candle.low == candle.low_s(),
 //@replace Ok(Self::Instance { ==> Ok(ParabolicSARInstance {
 //@end
+}
+// the complete state transition (what the code does on one candle with high ch and low cl)
+pub open spec fn psar_step(pre: &ParabolicSARInstance, ch: real, cl: real, post: &ParabolicSARInstance) -> bool {
+	let up = pre.trend > 0;
+	let flip = if up { cl < pre.sar@ } else { ch > pre.sar@ };
+	// the running extreme of the current trend and the acceleration counter
+	let ext = if up { pre.high@ < ch } else { pre.low@ > cl };
+	let high1 = if up && ext { ch } else { pre.high@ };
+	let low1 = if !up && ext { cl } else { pre.low@ };
+	let inc1 = pre.trend_inc as int + (if ext { 1int } else { 0int });
+	// on a flip the new trend starts from this candle's opposite extreme, with the counter back at 1 and the SAR at the finished trend's extreme
+	let high2 = if flip && !up { ch } else { high1 };
+	let low2 = if flip && up { cl } else { low1 };
+	let inc2 = if flip { 1int } else { inc1 };
+	let sar0 = if flip { if up { high1 } else { low1 } } else { pre.sar@ };
+	let af = rmin(pre.cfg.af_max@, pre.cfg.af_step@ * (inc2 as real));
+	&&& post.high@ == high2 && post.low@ == low2 && post.trend_inc as int == inc2
+	&&& (post.trend > 0 ==> post.sar@ == rmin(rmin(af * (high2 - sar0) + sar0, cl), pre.prev_candle.low@))
+	&&& (post.trend < 0 ==> post.sar@ == rmax(rmax(af * (low2 - sar0) + sar0, ch), pre.prev_candle.high@))
 }
 impl ParabolicSARInstance {
 	pub open spec fn inv(&self) -> bool { (self.trend == 1 || self.trend == -1) && self.trend_inc >= 1 }
@@ -50,6 +70,9 @@ impl ParabolicSARInstance {
 			&&& r.sigs()[0] == Action::of_i8(if old(self).prev_trend != final(self).trend { final(self).trend as int } else { 0int })
 			&&& final(self).prev_trend == final(self).trend
 		}),
+		// the complete transition of the remaining state: running extremes, acceleration counter, next SAR, remembered candle
+		psar_step(old(self), candle.high_s()@, candle.low_s()@, final(self)),
+		final(self).prev_candle.high == candle.high_s() && final(self).prev_candle.low == candle.low_s(),
 		// C12: the reported SAR is on the side of the price opposite to the (new) trend
 		final(self).trend > 0 ==> r.vals()[0]@ <= candle.low_s()@,
 		final(self).trend < 0 ==> r.vals()[0]@ >= candle.high_s()@,
@@ -67,6 +90,24 @@ impl ParabolicSARInstance {
 		assert(b * t == (if b == 1 { t } else { 0int })) by(nonlinear_arith) requires b == 0 || b == 1;
 	}
 //@end
+}
+
+// ---- C08 at indicator level (non-negative acceleration step, low <= high): fed the candle it was initialised with, ParabolicSAR keeps the SAR at the
+// candle's low and the trend at +1; the signal reports the initial trend on the first candle only (the documented exemption) and nothing afterwards.
+// (validate() accepts a negative af_step; the SAR then drifts below the low on a repeated candle: recorded as an observation, not a C08 claim)
+impl ParabolicSARInstance {
+	pub open spec fn const_state(&self, h: real, l: real) -> bool {
+		&&& self.inv() && self.trend == 1 && self.high@ == h && self.sar@ == l && self.prev_candle.low@ == l && l <= h
+		&&& self.cfg.af_step@ >= 0real && self.cfg.af_max@ >= 0real
+	}
+}
+pub proof fn psar_const_step(pre: &ParabolicSARInstance, h: real, l: real, post: &ParabolicSARInstance, sar: ValueType)
+	requires pre.const_state(h, l), post.inv(), post.cfg == pre.cfg, post.trend == 1, psar_step(pre, h, l, post), sar == pre.sar, post.prev_candle.low@ == l
+	ensures sar@ == l, post.const_state(h, l)
+{
+	let af = rmin(pre.cfg.af_max@, pre.cfg.af_step@ * (pre.trend_inc as real));
+	assert(pre.cfg.af_step@ * (pre.trend_inc as real) >= 0real) by(nonlinear_arith) requires pre.cfg.af_step@ >= 0real, pre.trend_inc >= 1;
+	assert(af * (h - l) >= 0real) by(nonlinear_arith) requires af >= 0real, h - l >= 0real;
 }
 } // verus!
 fn main() {}
